@@ -324,6 +324,7 @@ func formatForStmt(ctx *formatCtx, v *ast.ForStmt) {
 
 	formatStmt(ctx, v.Init)
 	formatExpr(ctx, v.Cond, &v.Cond)
+	formatStmt(ctx, v.Post)
 	formatBlockStmt(ctx, v.Body)
 }
 
